@@ -15,9 +15,11 @@ Subst(e, user) == IF Contains(e, "PH")
 \* a UTF-16 name as the protocol defines it: one trailing terminator is not part of the name
 StripNul(n) == IF n # <<>> /\ n[Len(n)] = "NUL" THEN SubSeq(n, 1, Len(n) - 1) ELSE n
 
-\* host:port with IPv6 literals bracketed (what a dial string looks like)
+\* host:port with IPv6 literals bracketed (what a dial string looks like); the
+\* symbol "H6" stands for an IPv6 literal, i.e. text that contains colons
+HasColon(n) == Contains(n, ":") \/ Contains(n, "%") \/ Contains(n, "H6")
 Join(name, port) == LET n == StripNul(name) IN
-                    IF Contains(n, ":") \/ Contains(n, "%") THEN <<"[">> \o n \o <<"]", ":", port>>
+                    IF HasColon(n) THEN <<"[">> \o n \o <<"]", ":", port>>
                     ELSE n \o <<":", port>>
 
 \* client address of a request: first X-Forwarded-For element if the header is present,
